@@ -158,7 +158,15 @@ class MatchResult:
                     return False
             self._current_match.value_bindings[pattern_value] = value
             return True
-        return self.bind(var_name, value)
+        if not self.bind(var_name, value):
+            return False
+        if pattern_value.check_method is not None and not any(
+            pattern_value in match.value_bindings for match in self._partial_matches
+        ):
+            # Record named patterns that carry a value-level checker, so that the
+            # checker is run at the end of the match (as for unnamed patterns).
+            self._current_match.value_bindings[pattern_value] = value
+        return True
 
     def bind(self, var: str, value: Any) -> bool:
         for match in self._partial_matches:
